@@ -93,6 +93,33 @@ class CallSingle(Contract):
         return {"kind": "C12.call_single", "do_cache": model.get("do_cache", "True") == "True"}
 
 
+class CallEmpty(Contract):
+    """empty batch: an array with no rows and `output_length` columns, no evaluation, cache and counter untouched"""
+    file, qualname = FILE, "Function.__call__"
+    label = "Function.__call__[empty batch]"
+
+    def inputs(self, S):
+        return {"self": function_obj(S), "coordinates": Opaque(S.const("coordinates", U))}
+
+    def pre(self, S, env):
+        return [("empty-batch", P.LEN(env["coordinates"].term) == 0)]
+
+    def post(self, S, old, env, result):
+        so, s = old["self"].fields, env["self"].fields
+        shape = getattr(result, "shape", None)
+        ok = isinstance(result, Opaque) and shape is not None and len(shape) == 2
+        if not ok:
+            return [Cl("returns-an-array-shaped-by-the-number-of-points-and-the-output-length", False, prop=True)]
+        from pyvc import values as Vv
+        return [Cl("returns-an-array-shaped-by-the-number-of-points-and-the-output-length", z3.And(Vv.to_z3(shape[0]) == 0, Vv.to_z3(shape[1]) == OUTLEN), prop=True),
+                Cl("no-point-is-counted", z3.And(s["f_dict"].dom == so["f_dict"].dom, s["f_dict"].val == so["f_dict"].val), prop=True),
+                Cl("caching-flag-untouched", s["do_cache"] == so["do_cache"])]
+
+    @staticmethod
+    def model_to_input(model):
+        return {"kind": "C12.call_empty"}
+
+
 class ResetDictionary(Contract):
     file, qualname = FILE, "Function.reset_dictionary"
 
@@ -115,7 +142,183 @@ class DeactivateCaching(Contract):
         return [Cl("caching-off", s["do_cache"] is False), Cl("cache-untouched", z3.And(s["f_dict"].dom == so["f_dict"].dom, s["f_dict"].val == so["f_dict"].val))]
 
 
-CONTRACTS = [Eval(), OutputLength(), CallSingle(), ResetDictionary(), DeactivateCaching()]
+CONTRACTS = [Eval(), OutputLength(), CallSingle(), CallEmpty(), ResetDictionary(), DeactivateCaching()]
 LEMMAS = []
 ASSUMPTIONS = ["user eval is deterministic and pure (uninterpreted function of the point)", "np.isscalar / tuple / np.array on opaque python values are uninterpreted functions",
                "batch path, vectorised overrides and analytic integrals: layer B (and sympy) only"]
+
+
+# --------------------------------------------------------------------------- analytic integrals of the polynomial test functions against their evaluation
+# The statement "the analytic integral over any box equals the integral of the point evaluation" is carried for the polynomial classes by a shared
+# spec: each class is a product (or sum) of univariate monomials c*x^k; eval must equal the spec built from mono(c,k,x), the analytic integral must
+# equal the same spec built from mono_int(c,k,s,e) = c*(e^(k+1)-s^(k+1))/(k+1) (the integral of the monomial over [s,e]; Fubini for the box).
+from pyvc.book import Loop  # noqa: E402
+from pyvc import values as Vv  # noqa: E402
+
+I_, R_ = z3.IntSort(), z3.RealSort()
+
+
+def zpow(x, k):
+    r = z3.RealVal(1)
+    for _ in range(k):
+        r = r * x
+    return r
+
+
+def mono(c, k, x):
+    return c * zpow(x, k)
+
+
+def mono_int(c, k, s, e):
+    return c * (zpow(e, k + 1) - zpow(s, k + 1)) / (k + 1)
+
+
+def _vec(S, name, d):
+    return Seq("array", [S.real("%s%d" % (name, i)) for i in range(d)])
+
+
+def _rv(x):
+    return Vv.to_z3(x, True)
+
+
+def _floats(model, name, d):
+    from pyvc import modelparse as mp
+    return [mp.tofloat(mp.num(model.get("%s%d" % (name, i), "0"))) or 0.0 for i in range(d)]
+
+
+class PolyFixed(Contract):
+    """product / sum families, loop-free for a fixed dimension (complete for that dimension; the bound on the dimension is stated in the label)"""
+    cls, kind, method = None, None, None
+
+    def __init__(self, dim, degree=None):
+        self.dim, self.degree = dim, degree
+        self.qualname = "%s.%s" % (self.cls, self.method)
+        self.label = "%s[dim=%d%s]" % (self.qualname, dim, "" if degree is None else ",degree=%d" % degree)
+
+    def receiver(self, S):
+        f = dict(coeffs=_vec(S, "c", self.dim), dim=self.dim)
+        if self.degree is not None:
+            f["degree"] = self.degree
+        return Obj(self.cls, f)
+
+    def inputs(self, S):
+        if self.method == "eval":
+            return {"self": self.receiver(S), "coordinates": Seq("tuple", [S.real("x%d" % i) for i in range(self.dim)])}
+        return {"self": self.receiver(S), "start": _vec(S, "s", self.dim), "end": _vec(S, "e", self.dim)}
+
+    def model_to_input(self, model):
+        d = self.dim
+        return {"kind": "C12.poly", "cls": self.cls, "method": self.method, "dim": d, "degree": self.degree, "coeffs": _floats(model, "c", d),
+                "x": _floats(model, "x", d), "start": _floats(model, "s", d), "end": _floats(model, "e", d)}
+
+    def spec(self, old, one):
+        """`one(i)` is the univariate term of dimension i (value or integral); `vol_except(i)` the volume of the other dimensions"""
+        raise NotImplementedError
+
+    def post(self, S, old, env, result):
+        c = old["self"].fields["coeffs"].items
+        k = self.degree if self.degree is not None else 1
+        if self.method == "eval":
+            x = old["coordinates"].items
+            want = self.spec(lambda i: mono(c[i], k, x[i]), lambda i: z3.RealVal(1))
+            name = "value-is-the-stated-polynomial"
+        else:
+            s, e = old["start"].items, old["end"].items
+
+            def vol_except(i):
+                v = z3.RealVal(1)
+                for j in range(self.dim):
+                    if j != i:
+                        v = v * (e[j] - s[j])
+                return v
+            want = self.spec(lambda i: mono_int(c[i], k, s[i], e[i]), vol_except)
+            name = "analytic-integral-is-the-integral-of-the-evaluated-polynomial-over-the-box"
+        ok = result is not None
+        return [Cl(name, _rv(result) == want if ok else False, prop=True)]
+
+
+class ProductFamily(PolyFixed):
+    def spec(self, one, vol_except):
+        r = z3.RealVal(1)
+        for i in range(self.dim):
+            r = r * one(i)
+        return r
+
+
+class SumFamily(PolyFixed):
+    def spec(self, one, vol_except):
+        r = z3.RealVal(0)
+        for i in range(self.dim):
+            r = r + one(i) * vol_except(i)
+        return r
+
+
+def _mk(base, cls_, method_):
+    return type("%s_%s" % (cls_, method_), (base,), dict(cls=cls_, method=method_, file=FILE))
+
+
+LinearEval, LinearInt = _mk(ProductFamily, "FunctionLinear", "eval"), _mk(ProductFamily, "FunctionLinear", "getAnalyticSolutionIntegral")
+MultiEval, MultiInt = _mk(SumFamily, "FunctionMultilinear", "eval"), _mk(SumFamily, "FunctionMultilinear", "getAnalyticSolutionIntegral")
+PolyEval, PolyInt = _mk(ProductFamily, "FunctionPolynomial", "eval"), _mk(ProductFamily, "FunctionPolynomial", "getAnalyticSolutionIntegral")
+
+
+class ConstantIntegral(Contract):
+    """ConstantValue.getAnalyticSolutionIntegral for any dimension: value * volume of the box (ghost product of the extents)"""
+    file, qualname = FILE, "ConstantValue.getAnalyticSolutionIntegral"
+    label = "ConstantValue.getAnalyticSolutionIntegral[any dimension]"
+    VOL = z3.Function("VolPrefix", I_, R_)
+
+    def inputs(self, S):
+        dim = S.int("dim")
+        S.assume(dim >= 1)
+        env = {"self": Obj("ConstantValue", dict(value=S.real("value"))), "start": S.seq("start", dim, R_, kind="array"), "end": S.seq("end", dim, R_, kind="array")}
+        k = z3.Int("vk")
+        VOL = self.VOL
+        S.assume(VOL(0) == 1, "def:VolPrefix")
+        S.assume(z3.ForAll([k], z3.Implies(z3.And(k >= 0, k < dim), VOL(k + 1) == VOL(k) * (z3.Select(env["end"].arr, k) - z3.Select(env["start"].arr, k))),
+                           patterns=[VOL(k + 1)]), "def:VolPrefix")
+        return env
+
+    def pre(self, S, env):
+        return [("same-length", env["start"].len() == env["end"].len())]
+
+    def inv(self, S, env, g):
+        old = S.ex.old
+        return [("partial-volume", _rv(env["integral"]) == self.VOL(g["k"]), "nokeep", ["def:VolPrefix", "loop0/inv#partial-volume"]),
+                ("inputs-untouched", z3.And(env["start"].arr == old["start"].arr, env["end"].arr == old["end"].arr, env["dim"] == old["start"].len()))]
+
+    @property
+    def loops(self):
+        return {0: Loop(inv=lambda S, env, g: self.inv(S, env, g))}
+
+    def post(self, S, old, env, result):
+        ok = result is not None
+        return [Cl("analytic-integral-is-the-constant-times-the-box-volume", _rv(result) == old["self"].fields["value"] * self.VOL(old["start"].len()) if ok else False, prop=True)]
+
+    @staticmethod
+    def model_to_input(model):
+        from pyvc import modelparse as mp
+        return {"kind": "C12.constant", "value": mp.tofloat(mp.num(model.get("value", "1")))}
+
+
+class ConstantEval(Contract):
+    file, qualname = FILE, "ConstantValue.eval"
+
+    def inputs(self, S):
+        return {"self": Obj("ConstantValue", dict(value=S.real("value"))), "coordinates": Opaque(S.const("coordinates", U))}
+
+    def post(self, S, old, env, result):
+        return [Cl("value-is-the-constant", _rv(result) == old["self"].fields["value"], prop=True)]
+
+
+POLY = [ConstantEval(), ConstantIntegral()]
+for _d in (1, 2, 3):
+    POLY += [LinearEval(_d), LinearInt(_d), MultiEval(_d), MultiInt(_d)]
+for _d in (1, 2):
+    for _k in (1, 2, 3):
+        POLY += [PolyEval(_d, _k), PolyInt(_d, _k)]
+CONTRACTS += POLY
+ASSUMPTIONS += ["polynomial test functions: the integral of c*x^k over [s,e] is c*(e^(k+1)-s^(k+1))/(k+1) and the integral of a product of univariate factors over a box is the "
+                "product of the univariate integrals (calculus facts behind the spec functions mono / mono_int; not proved here)",
+                "FunctionLinear / FunctionMultilinear: dimensions 1-3, FunctionPolynomial: dimensions 1-2 and degrees 1-3 (loop-free unrolling, fully symbolic coefficients and box); "
+                "ConstantValue: any dimension (ghost product)"]
